@@ -373,15 +373,21 @@ func cmdC18(args []string) {
 								}
 							}
 							hd[field] = v
-							req := newReq(method, hd)
-							w := &nullRW{h: make(http.Header, 8)}
-							allocs := testing.AllocsPerRun(20, func() {
-								clear(w.h)
-								h.ServeHTTP(w, req)
-							})
-							t.emit(map[string]any{"ev": "Alloc", "cfg": kc.name, "dbg": dbg, "field": field, "shape": shape, "method": method,
-								"size": n, "allocs": int(allocs + 0.5)})
-							measures++
+							// properties of the request beyond method and header fields: protocol version, body, TLS
+							for ri, reqShape := range []int{0, 4, 5, 1} {
+								if ri > 0 && !(field == hACRH && (shape == "lines" || shape == "elements" || shape == "allowed-lines" || shape == "allowed-pairs" || shape == "allowed")) && !(field == hOrigin && shape == "bytes") {
+									continue // the other request shapes only on the ladders where work per element / line could hide
+								}
+								req := reqSpec{Method: method, H: hd, Shape: reqShape}.build()
+								w := &nullRW{h: make(http.Header, 8)}
+								allocs := testing.AllocsPerRun(20, func() {
+									clear(w.h)
+									h.ServeHTTP(w, req)
+								})
+								t.emit(map[string]any{"ev": "Alloc", "cfg": kc.name, "dbg": dbg, "field": field, "shape": shape,
+									"method": method + []string{"", "/HTTP1.0", "/HTTP2", "/body"}[ri], "size": n, "allocs": int(allocs + 0.5)})
+								measures++
+							}
 						}
 					}
 				}
